@@ -52,6 +52,9 @@ static std::vector<Tag> find_tag_keys(int want, const int* plan) {
         for (size_t c = 0; c < tcand.size() && !found; c++)   // no candidate with the planned home slot: any unused one
             if (!tused[c] && tcand[c] != 0) { tused[c] = true; out.push_back(tcand[c]); found = true; }
     }
+    // the numerically zero tag (layer 0, type 0) is a legal key of every table; it is the value an unused slot holds, so it
+    // is always part of the alphabet (as the last key, whatever its home slot)
+    if (!out.empty() && std::find(out.begin(), out.end(), (Tag)0) == out.end()) out.back() = 0;
     return out;
 }
 static KeySearch find_keys(int want) {
